@@ -97,3 +97,18 @@ package dsl
 //@ func UnmarshalFieldsOrProtocolStepsYAML
 //@   entry
 //@   requires value != nil && elements != nil
+
+// ---- small pure model queries used by the generators' contracts ------------------------------------------
+//@ func (*Array).IsFixed
+//@   property C02,C14
+//@   pure
+//@   requires a != nil
+//@   invariant 0: forall k in 0..rangeindex+1 :: (*a.Dimensions)[k].Length != nil
+//@   ensures fixed_means_all_lengths: result ==> a.Dimensions != nil && (forall k in 0..len(*a.Dimensions) :: (*a.Dimensions)[k].Length != nil)
+//@   ensures not_fixed_means_some_missing: !result ==> a.Dimensions == nil || (exists k in 0..len(*a.Dimensions) :: (*a.Dimensions)[k].Length == nil)
+
+// Alias-transparent primitive lookup. "pure": the result depends only on the argument and the (unmodified) model.
+//@ func GetPrimitiveType
+//@   pure
+//@ func GetUnderlyingType
+//@   pure
